@@ -15,76 +15,135 @@ theorem hexDigit_lt (d : Nat) (h : d < 16) : hexDigit d < 128 := by
 theorem hexDigit_ne (d : Nat) (h : d < 16) : hexDigit d ≠ 92 ∧ hexDigit d ≠ 96 ∧ hexDigit d ≠ 10 := by
   unfold hexDigit; split <;> omega
 
-theorem takeHex_hex2 (c : Nat) (h : c < 256) (rest : List Nat) : takeHex 2 0 (hex2 c ++ rest) = some (c, rest) := by
-  simp only [hex2, List.cons_append, List.nil_append, takeHex, hexVal_hexDigit _ (Nat.mod_lt _ (by decide : 16 > 0))]
-  congr 2; omega
-
 theorem takeHex_hex4 (c : Nat) (h : c < 65536) (rest : List Nat) : takeHex 4 0 (hex4 c ++ rest) = some (c, rest) := by
   simp only [hex4, List.cons_append, List.nil_append, takeHex, hexVal_hexDigit _ (Nat.mod_lt _ (by decide : 16 > 0))]
   congr 2; omega
 
-theorem takeHex_hex8 (c : Nat) (h : c < 4294967296) (rest : List Nat) : takeHex 8 0 (hex8 c ++ rest) = some (c, rest) := by
-  simp only [hex8, List.cons_append, List.nil_append, takeHex, hexVal_hexDigit _ (Nat.mod_lt _ (by decide : 16 > 0))]
-  congr 2; omega
+/-! ## UTF-16 code units of a code-point string, and putting surrogate pairs back together -/
 
-/-! ## `unicode_escape`: decode ∘ encode -/
+/-- what `unicode_escape` decoding of the escaped text yields: one element per UTF-16 code unit -/
+def units : Str → Str
+  | [] => []
+  | c :: r => if 65536 ≤ c then (55296 + (c - 65536) / 1024) :: (56320 + (c - 65536) % 1024) :: units r else c :: units r
 
-theorem decodeLoop_char (c : Nat) (hc : c < 1114112) (rest : List Nat) (f : Nat) :
-    decodeLoop (f + 1) (unicodeEscapeChar c ++ rest) = (decodeLoop f rest).map (c :: ·) := by
-  unfold unicodeEscapeChar
-  split
-  · subst_vars; simp [decodeLoop]
-  split
-  · subst_vars; simp [decodeLoop]
-  split
-  · subst_vars; simp [decodeLoop]
-  split
-  · subst_vars; simp [decodeLoop]
-  split
-  · rename_i h1 h2 h3 h4 h5
-    have hc' : c < 256 := by
-      simp only [Bool.or_eq_true, Bool.and_eq_true, decide_eq_true_eq] at h5; omega
-    simp only [List.cons_append, decodeLoop]
-    simp [takeHex_hex2 c hc']
-  split
-  · rename_i h1 h2 h3 h4 h5 h6
-    simp [decodeLoop, h4]
-  split
-  · rename_i h7
-    simp only [List.cons_append, decodeLoop]
-    simp [takeHex_hex4 c h7]
-  · simp only [List.cons_append, decodeLoop]
-    simp [takeHex_hex8 c (by omega), hc]
+theorem recombine_cons_of_not_high (c : Nat) (X : Str) (h : ¬ (55296 ≤ c ∧ c < 56320)) :
+    recombine (c :: X) = c :: recombine X := by
+  cases X with
+  | nil => simp [recombine]
+  | cons l r =>
+    have : ¬ (55296 ≤ c ∧ c < 56320 ∧ 56320 ≤ l ∧ l < 57344) := fun hh => h ⟨hh.1, hh.2.1⟩
+    simp [recombine, this]
 
-theorem decodeLoop_unicodeEscape (s : Str) (hs : ∀ c ∈ s, c < 1114112) :
-    ∀ f, s.length + 1 ≤ f → decodeLoop f (unicodeEscape s) = some s := by
+theorem recombine_pair (h l : Nat) (r : Str) (hh : 55296 ≤ h ∧ h < 56320 ∧ 56320 ≤ l ∧ l < 57344) :
+    recombine (h :: l :: r) = (65536 + (h - 55296) * 1024 + (l - 56320)) :: recombine r := by
+  rw [recombine, if_pos hh]
+
+/-- `recombine` undoes the split into UTF-16 code units for strings of Unicode scalar values -/
+theorem recombine_units (s : Str) (hs : ValidStr s) : recombine (units s) = s := by
+  induction s with
+  | nil => rfl
+  | cons c s ih =>
+    have hc := hs c (by simp)
+    have ih' := ih (fun d hd => hs d (by simp [hd]))
+    simp only [units]
+    split
+    · rename_i hbig
+      have h1 : 55296 ≤ 55296 + (c - 65536) / 1024 ∧ 55296 + (c - 65536) / 1024 < 56320 ∧
+          56320 ≤ 56320 + (c - 65536) % 1024 ∧ 56320 + (c - 65536) % 1024 < 57344 := by omega
+      rw [recombine_pair _ _ _ h1, ih']
+      have e : 65536 + (55296 + (c - 65536) / 1024 - 55296) * 1024 + (56320 + (c - 65536) % 1024 - 56320) = c := by omega
+      rw [e]
+    · rw [recombine_cons_of_not_high c _ (by omega), ih']
+
+/-! ## `unicode_escape` decoding of what `escape_parsable` writes -/
+
+/-- one `\uXXXX` escape -/
+theorem decodeLoop_u (v : Nat) (hv : v < 65536) (rest : List Nat) (f : Nat) :
+    decodeLoop (f + 1) (92 :: 117 :: (hex4 v ++ rest)) = (decodeLoop f rest).map (v :: ·) := by
+  simp only [decodeLoop]
+  simp [takeHex_hex4 v hv]
+
+theorem decodeLoop_pchar_small (c : Nat) (hc : c < 65536) (rest : List Nat) (f : Nat) :
+    decodeLoop (f + 1) (parsableEscapeChar c ++ rest) = (decodeLoop f rest).map (c :: ·) := by
+  unfold parsableEscapeChar
+  by_cases h1 : c = 92
+  · subst h1; simp [decodeLoop]
+  by_cases h2 : c = 9
+  · subst h2; simp [decodeLoop]
+  by_cases h3 : c = 10
+  · subst h3; simp [decodeLoop]
+  by_cases h4 : c = 13
+  · subst h4; simp [decodeLoop]
+  by_cases h5 : 32 ≤ c ∧ c < 127
+  · simp [h1, h2, h3, h4, h5, decodeLoop]
+  · rw [if_neg h1, if_neg h2, if_neg h3, if_neg h4, if_neg h5, if_pos hc]
+    exact decodeLoop_u c hc rest f
+
+theorem parsableEscapeChar_astral (c : Nat) (hc : 65536 ≤ c) :
+    parsableEscapeChar c =
+      92 :: 117 :: (hex4 (55296 + (c - 65536) / 1024) ++ 92 :: 117 :: hex4 (56320 + (c - 65536) % 1024)) := by
+  unfold parsableEscapeChar
+  rw [if_neg (by omega), if_neg (by omega), if_neg (by omega), if_neg (by omega), if_neg (by omega), if_neg (by omega)]
+
+theorem decodeLoop_pchar_astral (c : Nat) (hc : 65536 ≤ c) (hc' : c < 1114112) (rest : List Nat) (f : Nat) :
+    decodeLoop (f + 2) (parsableEscapeChar c ++ rest) =
+      (decodeLoop f rest).map ((55296 + (c - 65536) / 1024) :: (56320 + (c - 65536) % 1024) :: ·) := by
+  rw [parsableEscapeChar_astral c hc]
+  have e : (92 :: 117 :: (hex4 (55296 + (c - 65536) / 1024) ++ 92 :: 117 :: hex4 (56320 + (c - 65536) % 1024))) ++ rest
+      = 92 :: 117 :: (hex4 (55296 + (c - 65536) / 1024) ++ (92 :: 117 :: (hex4 (56320 + (c - 65536) % 1024) ++ rest))) := by
+    simp
+  rw [e, decodeLoop_u _ (by omega), decodeLoop_u _ (by omega)]
+  simp [Option.map_map, Function.comp_def]
+
+theorem parsableEscape_cons (c : Nat) (s : Str) : parsableEscape (c :: s) = parsableEscapeChar c ++ parsableEscape s := by
+  simp [parsableEscape]
+
+theorem decodeLoop_parsableEscape (s : Str) (hs : ∀ c ∈ s, c < 1114112) :
+    ∀ f, (units s).length + 1 ≤ f → decodeLoop f (parsableEscape s) = some (units s) := by
   induction s with
   | nil => intro f hf; cases f with
     | zero => omega
-    | succ f => simp [unicodeEscape, decodeLoop]
+    | succ f => simp [parsableEscape, decodeLoop, units]
   | cons c s ih =>
     intro f hf
-    cases f with
-    | zero => omega
-    | succ f =>
-      have : unicodeEscape (c :: s) = unicodeEscapeChar c ++ unicodeEscape s := by simp [unicodeEscape]
-      rw [this, decodeLoop_char c (hs c (by simp))]
-      rw [ih (fun d hd => hs d (by simp [hd])) f (by simp at hf; omega)]
+    have ih' := ih (fun d hd => hs d (by simp [hd]))
+    rw [parsableEscape_cons]
+    by_cases hbig : 65536 ≤ c
+    · simp only [units, hbig, if_true, List.length_cons] at hf ⊢
+      obtain ⟨f', rfl⟩ : ∃ f', f = f' + 2 := ⟨f - 2, by omega⟩
+      rw [decodeLoop_pchar_astral c hbig (hs c (by simp)), ih' f' (by omega)]
+      rfl
+    · simp only [units, hbig, if_false, List.length_cons] at hf ⊢
+      obtain ⟨f', rfl⟩ : ∃ f', f = f' + 1 := ⟨f - 1, by omega⟩
+      rw [decodeLoop_pchar_small c (by omega), ih' f' (by omega)]
       rfl
 
-theorem length_le_unicodeEscape (s : Str) : s.length ≤ (unicodeEscape s).length := by
-  induction s with
-  | nil => simp [unicodeEscape]
-  | cons c s ih =>
-    have : unicodeEscape (c :: s) = unicodeEscapeChar c ++ unicodeEscape s := by simp [unicodeEscape]
-    have h1 : 1 ≤ (unicodeEscapeChar c).length := by
-      unfold unicodeEscapeChar; repeat' split
-      all_goals simp
-    rw [this]; simp; omega
+theorem parsableEscapeChar_len (c : Nat) : 1 ≤ (parsableEscapeChar c).length ∧ (65536 ≤ c → 2 ≤ (parsableEscapeChar c).length) := by
+  unfold parsableEscapeChar
+  repeat' split
+  all_goals simp [hex4]
+  all_goals omega
 
-theorem unicodeEscapeDecode_unicodeEscape (s : Str) (hs : ∀ c ∈ s, c < 1114112) :
-    unicodeEscapeDecode (unicodeEscape s) = some s :=
-  decodeLoop_unicodeEscape s hs _ (by have := length_le_unicodeEscape s; omega)
+theorem units_length_le (s : Str) : (units s).length ≤ (parsableEscape s).length := by
+  induction s with
+  | nil => simp [units, parsableEscape]
+  | cons c s ih =>
+    rw [parsableEscape_cons]
+    have := parsableEscapeChar_len c
+    simp only [units]
+    split <;> simp <;> omega
+
+theorem length_le_parsableEscape (s : Str) : s.length ≤ (parsableEscape s).length := by
+  induction s with
+  | nil => simp [parsableEscape]
+  | cons c s ih =>
+    rw [parsableEscape_cons]
+    have := (parsableEscapeChar_len c).1
+    simp; omega
+
+theorem unicodeEscapeDecode_parsableEscape (s : Str) (hs : ∀ c ∈ s, c < 1114112) :
+    unicodeEscapeDecode (parsableEscape s) = some (units s) :=
+  decodeLoop_parsableEscape s hs _ (by have := units_length_le s; omega)
 
 /-! ## backtick replacement and UTF-8 of ASCII -/
 
@@ -123,25 +182,27 @@ theorem utf8_ascii (x : Str) (h : ∀ b ∈ x, b < 128) : utf8 x = some x := by
     have hb : b < 128 := h b (by simp)
     simp [utf8, utf8Char, hb, ih (fun d hd => h d (by simp [hd]))]
 
-theorem unicodeEscapeChar_ascii (c : Nat) : ∀ b ∈ unicodeEscapeChar c, b < 128 := by
+theorem parsableEscapeChar_ascii (c : Nat) : ∀ b ∈ parsableEscapeChar c, b < 128 := by
   have hd : ∀ n, hexDigit (n % 16) < 128 := fun n => hexDigit_lt _ (Nat.mod_lt _ (by decide))
-  unfold unicodeEscapeChar
+  unfold parsableEscapeChar
   repeat' split
-  all_goals simp_all [hex2, hex4, hex8]
+  all_goals simp_all [hex4]
   all_goals omega
 
-theorem unicodeEscape_ascii (s : Str) : ∀ b ∈ unicodeEscape s, b < 128 := by
+theorem parsableEscape_ascii (s : Str) : ∀ b ∈ parsableEscape s, b < 128 := by
   intro b hb
-  simp only [unicodeEscape, List.mem_flatMap] at hb
+  simp only [parsableEscape, List.mem_flatMap] at hb
   obtain ⟨c, _, hc⟩ := hb
-  exact unicodeEscapeChar_ascii c b hc
+  exact parsableEscapeChar_ascii c b hc
 
 /-- `unescape_parsable` inverts the body `escape_parsable` puts between the backticks -/
-theorem unescapeParsable_escaped (s : Str) (hs : ∀ c ∈ s, c < 1114112) :
-    unescapeParsable (replaceBacktick (unicodeEscape s)) = some s := by
+theorem unescapeParsable_escaped (s : Str) (hs : ValidStr s) :
+    unescapeParsable (replaceBacktick (parsableEscape s)) = some s := by
   unfold unescapeParsable
-  rw [unreplace_replace, utf8_ascii _ (unicodeEscape_ascii s)]
-  simpa using unicodeEscapeDecode_unicodeEscape s hs
+  rw [unreplace_replace, utf8_ascii _ (parsableEscape_ascii s)]
+  simp only [Option.bind_some]
+  rw [unicodeEscapeDecode_parsableEscape s (fun c hc => (hs c hc).1)]
+  simp [recombine_units s hs]
 
 /-! ## scanning a backticked identifier -/
 
@@ -154,17 +215,28 @@ theorem scan_pair (d : Nat) (X : Str) (h : d ≠ 10) :
   simp [scanEscaped, h]
 
 /-- one character of the text between the backticks -/
-def escBodyChar (c : Nat) : Str := replaceBacktick (unicodeEscapeChar c)
+def escBodyChar (c : Nat) : Str := replaceBacktick (parsableEscapeChar c)
 
 theorem escBody_cons (c : Nat) (s : Str) :
-    replaceBacktick (unicodeEscape (c :: s)) = escBodyChar c ++ replaceBacktick (unicodeEscape s) := by
-  simp [unicodeEscape, escBodyChar, replaceBacktick_append]
+    replaceBacktick (parsableEscape (c :: s)) = escBodyChar c ++ replaceBacktick (parsableEscape s) := by
+  simp [parsableEscape, escBodyChar, replaceBacktick_append]
+
+theorem hex4_noBacktick (c : Nat) : replaceBacktick (hex4 c) = hex4 c := by
+  have hd : ∀ n, hexDigit (n % 16) ≠ 96 := fun n => (hexDigit_ne _ (Nat.mod_lt _ (by decide))).2.1
+  simp [replaceBacktick, hex4, hd]
+
+theorem scan_hex4 (c : Nat) (x : Nat) (X : Str) :
+    scanEscaped (hex4 c ++ x :: X) = (scanEscaped (x :: X)).map fun p => (hex4 c ++ p.1, p.2) := by
+  have hd : ∀ n, hexDigit (n % 16) ≠ 92 ∧ hexDigit (n % 16) ≠ 96 ∧ hexDigit (n % 16) ≠ 10 :=
+    fun n => hexDigit_ne _ (Nat.mod_lt _ (by decide))
+  simp only [hex4, List.cons_append, List.nil_append]
+  rw [scan_plain _ _ _ (hd _).2.1 (hd _).1, scan_plain _ _ _ (hd _).2.1 (hd _).1, scan_plain _ _ _ (hd _).2.1 (hd _).1,
+    scan_plain _ _ _ (hd _).2.1 (hd _).1]
+  simp [Option.map_map, Function.comp_def]
 
 theorem scan_char (c : Nat) (x : Nat) (X : Str) :
     scanEscaped (escBodyChar c ++ x :: X) = (scanEscaped (x :: X)).map fun p => (escBodyChar c ++ p.1, p.2) := by
-  have hd : ∀ n, hexDigit (n % 16) ≠ 92 ∧ hexDigit (n % 16) ≠ 96 ∧ hexDigit (n % 16) ≠ 10 :=
-    fun n => hexDigit_ne _ (Nat.mod_lt _ (by decide))
-  unfold escBodyChar unicodeEscapeChar
+  unfold escBodyChar parsableEscapeChar
   split
   · simp [replaceBacktick, scan_pair]
   split
@@ -174,26 +246,33 @@ theorem scan_char (c : Nat) (x : Nat) (X : Str) :
   split
   · simp [replaceBacktick, scan_pair]
   split
-  · simp only [replaceBacktick, hex2, List.flatMap_cons, List.flatMap_nil, (hd _).2.1, if_false]
-    simp [scan_pair, scan_plain, (hd _).1, (hd _).2.1, Option.map_map, Function.comp_def]
-  split
-  · rename_i h1 h2 h3 h4 h5 h6
+  · rename_i h1 h2 h3 h4 h5
     by_cases h96 : c = 96
     · subst h96; simp [replaceBacktick, scan_pair]
-    · simp [replaceBacktick, h96, scan_plain, h4]
+    · simp [replaceBacktick, h96, scan_plain, h1]
   split
-  · simp only [replaceBacktick, hex4, List.flatMap_cons, List.flatMap_nil, (hd _).2.1, if_false]
-    simp [scan_pair, scan_plain, (hd _).1, (hd _).2.1, Option.map_map, Function.comp_def]
-  · simp only [replaceBacktick, hex8, List.flatMap_cons, List.flatMap_nil, (hd _).2.1, if_false]
-    simp [scan_pair, scan_plain, (hd _).1, (hd _).2.1, Option.map_map, Function.comp_def]
+  · have e : replaceBacktick (92 :: 117 :: hex4 c) = 92 :: 117 :: hex4 c := by
+      rw [replaceBacktick_cons, replaceBacktick_cons, hex4_noBacktick]; simp
+    rw [e]
+    simp only [List.cons_append]
+    rw [scan_pair _ _ (by decide), scan_hex4]
+    simp [Option.map_map, Function.comp_def]
+  · have e : ∀ a b, replaceBacktick (92 :: 117 :: (hex4 a ++ 92 :: 117 :: hex4 b)) = 92 :: 117 :: (hex4 a ++ 92 :: 117 :: hex4 b) := by
+      intro a b
+      rw [replaceBacktick_cons, replaceBacktick_cons, replaceBacktick_append, replaceBacktick_cons, replaceBacktick_cons,
+        hex4_noBacktick, hex4_noBacktick]; simp
+    rw [e]
+    simp only [List.cons_append, List.append_assoc]
+    rw [scan_pair _ _ (by decide), scan_hex4, scan_pair _ _ (by decide), scan_hex4]
+    simp [Option.map_map, Function.comp_def]
 
 theorem scan_body (s : Str) (rest : Str) :
-    scanEscaped (replaceBacktick (unicodeEscape s) ++ 96 :: rest) = some (replaceBacktick (unicodeEscape s), rest) := by
+    scanEscaped (replaceBacktick (parsableEscape s) ++ 96 :: rest) = some (replaceBacktick (parsableEscape s), rest) := by
   induction s with
-  | nil => cases rest <;> simp [unicodeEscape, replaceBacktick, scanEscaped]
+  | nil => cases rest <;> simp [parsableEscape, replaceBacktick, scanEscaped]
   | cons c s ih =>
     rw [escBody_cons, List.append_assoc]
-    cases hX : replaceBacktick (unicodeEscape s) ++ 96 :: rest with
+    cases hX : replaceBacktick (parsableEscape s) ++ 96 :: rest with
     | nil => simp at hX
     | cons x X =>
       rw [scan_char, ← hX, ih]; rfl
@@ -234,29 +313,36 @@ theorem spanWord_all (n : Str) (p : Nat) (rest : Str) (hn : ∀ c ∈ n, cc.isWo
   | cons c n ih =>
     simp [spanWord, hn c (by simp), ih (fun d hd => hn d (by simp [hd]))]
 
-theorem isParsable_words (n : Str) (h : isParsable cc n = true) :
-    ∃ c r, n = c :: r ∧ (c == 95 || asciiLetter c) = true ∧ ∀ d ∈ c :: r, cc.isWord d = true := by
+theorem asciiWord_lt (d : Nat) (h : asciiWord d = true) : d < 128 := by
+  simp only [asciiWord, asciiLetter, asciiDigit, Bool.or_eq_true, Bool.and_eq_true, decide_eq_true_eq, beq_iff_eq] at h
+  omega
+
+theorem isParsable_words (n : Str) (h : isParsable n = true) :
+    ∃ c r, n = c :: r ∧ (c == 95 || asciiLetter c) = true ∧ (∀ d ∈ c :: r, asciiWord d = true) ∧
+      ∀ d ∈ c :: r, cc.isWord d = true := by
   cases n with
   | nil => simp [isParsable] at h
   | cons c r =>
     simp only [isParsable, Bool.and_eq_true, List.all_eq_true] at h
-    refine ⟨c, r, rfl, h.1, ?_⟩
+    have hall : ∀ d ∈ c :: r, asciiWord d = true := by
+      intro d hd
+      rcases List.mem_cons.1 hd with rfl | hd
+      · have := h.1
+        simp only [asciiWord, asciiLetter, asciiDigit, Bool.or_eq_true, Bool.and_eq_true, decide_eq_true_eq, beq_iff_eq] at this ⊢
+        omega
+      · exact h.2 d hd
+    refine ⟨c, r, rfl, h.1, hall, ?_⟩
     intro d hd
-    rcases List.mem_cons.1 hd with rfl | hd
-    · exact (first_char_facts cc _ h.1).2.1
-    · have := h.2 d hd
-      simp only [Bool.or_eq_true, beq_iff_eq] at this
-      rcases this with h' | h'
-      · exact h'
-      · subst h'; rw [isWord_ascii cc _ (by decide)]; decide
+    rw [isWord_ascii cc d (asciiWord_lt d (hall d hd))]
+    exact hall d hd
 
-theorem pIdentifier_escape (n : Str) (hn : ∀ c ∈ n, c < 1114112) (p : Nat) (rest : Str) (hp : Punct p) :
-    pIdentifier cc (escapeParsable cc n ++ p :: rest) = some (n, p :: rest) := by
+theorem pIdentifier_escape (n : Str) (hn : ValidStr n) (p : Nat) (rest : Str) (hp : Punct p) :
+    pIdentifier cc (escapeParsable n ++ p :: rest) = some (n, p :: rest) := by
   obtain ⟨hps, hpw, _⟩ := punct_facts cc p hp
   unfold escapeParsable
   split
   · rename_i h
-    obtain ⟨c, r, rfl, hc, hall⟩ := isParsable_words cc n h
+    obtain ⟨c, r, rfl, hc, _, hall⟩ := isParsable_words cc n h
     have hsp := (first_char_facts cc c hc).1
     simp only [pIdentifier, List.cons_append, skipWs_of_nonspace cc c _ hsp]
     have := spanWord_all cc (c :: r) p rest hall hpw
@@ -265,7 +351,7 @@ theorem pIdentifier_escape (n : Str) (hn : ∀ c ∈ n, c < 1114112) (p : Nat) (
   · have h96s : cc.isSpace 96 = false := by rw [isSpace_ascii cc _ (by decide)]; decide
     have h96w : cc.isWord 96 = false := by rw [isWord_ascii cc _ (by decide)]; decide
     simp only [pIdentifier, List.cons_append, skipWs_of_nonspace cc 96 _ h96s]
-    have hsimple : pSimpleIdentifier cc (96 :: (replaceBacktick (unicodeEscape n) ++ [96] ++ p :: rest)) = none := by
+    have hsimple : pSimpleIdentifier cc (96 :: (replaceBacktick (parsableEscape n) ++ [96] ++ p :: rest)) = none := by
       simp [pSimpleIdentifier, spanWord, h96w]
     have hscan := scan_body n (p :: rest)
     simp only [List.append_assoc, List.cons_append, List.nil_append] at hsimple ⊢
